@@ -45,9 +45,22 @@ func (r *Result) Fail(f hx.OracleFailure) {
 	r.Fails = append(r.Fails, f)
 }
 
+// Phase is a group of jobs that run under one process-global setting (Enter / Leave are called
+// on the main goroutine with no job running).
+type Phase struct {
+	N            int
+	Enter, Leave func()
+}
+
 // RunJobs runs jobs 0..n-1 (only job `only` when only >= 0) on a worker pool and folds the
 // results into run in job order.  Each worker owns a Runner.
 func RunJobs(run *hx.Run, n int, job func(i int, rn *Runner) *Result) map[string][]string {
+	return RunJobsPhases(run, []Phase{{N: n}}, job)
+}
+
+// RunJobsPhases: job indices run through the phases consecutively; the phases run one after the
+// other (a phase changes process-global state such as thread.SetParallelism).
+func RunJobsPhases(run *hx.Run, phases []Phase, job func(i int, rn *Runner) *Result) map[string][]string {
 	workers := runtime.NumCPU()
 	if workers > 10 {
 		workers = 10
@@ -55,30 +68,53 @@ func RunJobs(run *hx.Run, n int, job func(i int, rn *Runner) *Result) map[string
 	if workers < 1 {
 		workers = 1
 	}
+	n := 0
+	for _, ph := range phases {
+		n += ph.N
+	}
 	results := make([]*Result, n)
-	var wg sync.WaitGroup
-	next := make(chan int, n)
-	for i := 0; i < n; i++ {
-		if run.Only >= 0 && i != run.Only {
+	runners := make([]*Runner, workers)
+	for w := range runners {
+		rn, err := NewRunner()
+		if err != nil {
+			panic(err)
+		}
+		runners[w] = rn
+	}
+	start := 0
+	for _, ph := range phases {
+		next := make(chan int, ph.N)
+		queued := 0
+		for i := start; i < start+ph.N; i++ {
+			if run.Only >= 0 && i != run.Only {
+				continue
+			}
+			next <- i
+			queued++
+		}
+		close(next)
+		start += ph.N
+		if queued == 0 {
 			continue
 		}
-		next <- i
+		if ph.Enter != nil {
+			ph.Enter()
+		}
+		var wg sync.WaitGroup
+		for w := 0; w < workers; w++ {
+			wg.Add(1)
+			go func(rn *Runner) {
+				defer wg.Done()
+				for i := range next {
+					results[i] = safeJob(i, rn, job)
+				}
+			}(runners[w])
+		}
+		wg.Wait()
+		if ph.Leave != nil {
+			ph.Leave()
+		}
 	}
-	close(next)
-	for w := 0; w < workers; w++ {
-		wg.Add(1)
-		go func() {
-			defer wg.Done()
-			rn, err := NewRunner()
-			if err != nil {
-				panic(err)
-			}
-			for i := range next {
-				results[i] = safeJob(i, rn, job)
-			}
-		}()
-	}
-	wg.Wait()
 	sets := map[string]map[string]bool{}
 	// jobs.txt: protocol line number (0-based) -> job index and note, to replay a disagreement
 	var jobsTxt strings.Builder
